@@ -228,6 +228,26 @@ func (s *hSim) monitor(q hReq, o hObs) {
 		return
 	}
 	if o.Err != nil {
+		// no verdict. One thing can still be judged: a refresh that was attempted and failed must end the session (C11:
+		// "the stale session is removed so that the browser must log in again") - an error return that leaves the
+		// session and its refresh token in the store does not.
+		refreshAttempted, removed := false, false
+		for _, rec := range o.IDP {
+			if rec.Form.Get("grant_type") == "refresh_token" {
+				refreshAttempted = true
+			}
+		}
+		for _, cl := range o.Calls {
+			if cl.Op == "remove" && !cl.Err {
+				removed = true
+			}
+			if cl.Err {
+				removed = true // a store that fails cannot be asked to do more
+			}
+		}
+		if refreshAttempted && !removed && q.IDP.Kind != "body" {
+			s.violate("C11", "the refresh exchange failed and the check ended in an error without removing the stale session (the session and its refresh token stay in the store)", map[string]any{"request": q, "error": o.Err.Error()})
+		}
 		return
 	}
 	code := o.Resp.GetStatus().GetCode()
@@ -268,6 +288,22 @@ func (s *hSim) monitor(q hReq, o hObs) {
 				map[string]any{"request": q, "sid": sid, "created": g.created, "last_presented_before": g.last, "now": o.Now, "absolute": c.Abs.String(), "idle": c.Idle.String()})
 		}
 	}
+	// ---- C04 / C05 / C06: without the session cookie there is no session. A request that carries no cookie is never handed
+	// the id of a session that already exists and never causes a token request - whatever else it presents (a state, a code)
+	if !q.NoHTTP && sid == "" {
+		if len(o.IDP) > 0 {
+			for _, prop := range []string{"C04", "C06"} {
+				s.violate(prop, "a token request was made on behalf of a request that carried no session cookie (a login was located by something other than the cookie, e.g. its state parameter)", map[string]any{"request": q})
+			}
+		}
+		if sck, n := hdrValue(den.GetHeaders(), "set-cookie"); n > 0 {
+			if cs := (&http.Response{Header: http.Header{"Set-Cookie": []string{sck}}}).Cookies(); len(cs) == 1 && cs[0].Value != q.Gen[0] && s.issued[cs[0].Value] != nil {
+				for _, prop := range []string{"C06", "C05", "C04"} {
+					s.violate(prop, "a request that carried no session cookie was handed, in a Set-Cookie, the id of a session that already existed: the session id is obtainable from values that travel outside the cookie", map[string]any{"request": q, "set-cookie": sck})
+				}
+			}
+		}
+	}
 	anyFault := false
 	var lastGetTok *spyCall
 	var setToks []spyCall
@@ -304,6 +340,13 @@ func (s *hSim) monitor(q hReq, o hObs) {
 				s.violate("C11", "a refresh exchange that was not answered with a token response was treated as successful", map[string]any{"request": q, "idp_answer": q.IDP})
 			}
 			if len(o.IDP) > 0 { // refreshed during this check
+				if o.Keys == 0 && c.RealKeys == "" {
+					// the merged result carries an ID token (the new one, or the stored one when the provider sent none): it is
+					// bound and forwarded only after its signature was checked against the CURRENT key set
+					for _, prop := range []string{"C01", "C02", "C11"} {
+						s.violate(prop, "OK after a refresh whose resulting ID token was never verified against the key set (no key lookup during the check)", map[string]any{"request": q, "idp_answer": q.IDP})
+					}
+				}
 				if len(setToks) != 1 || setToks[0].Err || setToks[0].ID != sid {
 					s.violate("C01", "OK after a refresh whose result was not stored successfully under the presented session", map[string]any{"request": q})
 					return
